@@ -27,6 +27,7 @@ FRAMING = ('truncated_record', 'oversized_length')
 
 
 def prepare(ctx):
+    ctx.online_wanted = ('C03', 'C04', 'C05', 'C09')      # shadow-model monitors watch the file layer while this workload runs
     from cardutil import iso8583, mciipm
     from cardutil.config import config
     from cardutil.cli import mci_ipm_to_csv
